@@ -99,17 +99,17 @@ func siblingCountChoices(r *core.Run) {
 			if strings.HasSuffix(r.P.Fset.Position(fd.Pos()).Filename, ".pb.go") {
 				return
 			}
-			ast.Inspect(fd.Body, func(x ast.Node) bool {
-				ifs, ok := x.(*ast.IfStmt)
-				if !ok {
-					return true
-				}
+			handle := func(ifs *ast.IfStmt) {
 				test, ok := countTest(ifs.Cond)
 				if !ok {
-					return true
+					return
 				}
 				n++
-				o := r.Add("R-PROV/V7", rel+"."+core.FuncName(fd)+" | "+core.NormExpr(info, test), ifs.Pos(), "choice by the number of sibling declarations")
+				pos := ifs.Pos()
+				if !pos.IsValid() {
+					pos = test.Pos()
+				}
+				o := r.Add("R-PROV/V7", rel+"."+core.FuncName(fd)+" | "+core.NormExpr(info, test), pos, "choice by the number of sibling declarations")
 				bodyErr := errorsOnly(ifs.Body.List)
 				elseErr := false
 				if blk, isBlk := ifs.Else.(*ast.BlockStmt); isBlk {
@@ -122,6 +122,21 @@ func siblingCountChoices(r *core.Run) {
 					o.Auto("the other branch only returns errors")
 				default:
 					o.Fail("both outcomes of `%s` succeed: what is generated for a declaration depends on how many siblings it has, so appending another one changes the names or shapes already generated", core.ExprStr(test))
+				}
+			}
+			ast.Inspect(fd.Body, func(x ast.Node) bool {
+				switch y := x.(type) {
+				case *ast.IfStmt:
+					handle(y)
+				case *ast.SwitchStmt:
+					// a tagless switch is the same chain of tests
+					if y.Tag == nil {
+						if chain := core.SwitchAsIfChain(y); chain != nil {
+							for cur, ok := chain.(*ast.IfStmt); ok; cur, ok = cur.Else.(*ast.IfStmt) {
+								handle(cur)
+							}
+						}
+					}
 				}
 				return true
 			})
